@@ -199,6 +199,7 @@ def eval_pred(e, env):
         return l or eval_pred(e['rhs'], env)
     if k == 'Unary' and e['op'] == 'Not': return not eval_pred(e['arg'], env)
     if k == 'Literal' and e.get('lit') == 'Bool': return e['value']
+    if k in ('VarRef', 'UpvarRef') and isinstance(env.get(e['var']), tuple) and env[e['var']][0] == 'bool': return env[e['var']][1]
     if k == 'Call':
         d = callee_decl(e) or ''
         if d in ('std::cmp::PartialEq::eq', 'std::cmp::PartialEq::ne'):
@@ -260,6 +261,50 @@ def eval_val(e, env):
         if canon(e['adt']) == BDD and e['variant'] in ('True', 'False'): return ('bdd', e['variant'])
     if e['k'] == 'Tuple': return ('tuple', [eval_val(f, env) for f in e['fields']])
     raise PredUndec('value construct %s' % e['k'])
+
+def vector_nonempty(e, env):
+    """does this expression yield a non-empty vector?  `vec![x]` / `vec![]` (with `.into()`), under `if`s and lets of Boolean
+    predicates; PredUndec for anything else"""
+    while e['k'] in ('Use', 'NeverToAny', 'Borrow', 'Deref'): e = e.get('source') or e.get('arg')
+    if e['k'] == 'Block':
+        env = dict(env)
+        for st in e['stmts']:
+            if st['k'] == 'Let' and st.get('init') is not None:
+                q = unwrap_pat(st['pat'])
+                if q['k'] == 'Binding':
+                    try: env[q['var']] = ('bool', eval_pred(st['init'], env))
+                    except PredUndec: pass
+            elif st['k'] == 'Expr' and any(x['k'] in ('Assign', 'AssignOp') or (x['k'] == 'Call' and callee_name(x) == 'std::vec::Vec::push') for x in walk(st['expr'])):
+                raise PredUndec('statement with effects in the leaf arm')
+        if e['expr'] is None: raise PredUndec('leaf arm without a value')
+        return vector_nonempty(e['expr'], env)
+    if e['k'] == 'If' and e['cond']['k'] != 'Let' and e.get('else') is not None:
+        return vector_nonempty(e['then'] if eval_pred(e['cond'], env) else e['else'], env)
+    if e['k'] == 'Match' and e.get('source') == 'Normal':
+        v = eval_val(e['scrutinee'], env)
+        for a in e['arms']:
+            env2 = dict(env)
+            if pat_matches(a['pat'], v, env2) and (a.get('guard') is None or eval_pred(a['guard'], env2)): return vector_nonempty(a['body'], env2)
+        raise PredUndec('no arm applies')
+    arrays = [x for x in walk(e) if x['k'] == 'Array']
+    news = [x for x in walk(e) if x['k'] == 'Call' and (callee_name(x) or '') in ('std::vec::Vec::new', 'std::vec::Vec::with_capacity')]
+    if any(x['k'] in ('If', 'Match', 'Loop') for x in walk(e)): raise PredUndec('control flow inside the vector expression')
+    if arrays and all(len(x['fields']) >= 1 for x in arrays) and not news: return True
+    if (news and not arrays) or (arrays and all(len(x['fields']) == 0 for x in arrays)): return False
+    raise PredUndec('cannot tell whether %s is empty' % pp(e)[:50])
+
+def leaf_declared(t, leaf, filt):
+    """nodes_recursive on a leaf: is the leaf put into the node list under this filter?  Evaluates the arms after the Choice arm."""
+    for m in walk(t['body']):
+        if m['k'] != 'Match' or not m['arms']: continue
+        p0 = unwrap_pat(m['arms'][0]['pat'])
+        if not (p0['k'] == 'Variant' and canon(p0['adt']) == BDD and p0['variant'] == 'Choice'): continue
+        for a in m['arms'][1:]:
+            env = {'self.filter': ('tte', filt)}
+            if pat_matches(a['pat'], ('bdd', leaf), env) and (a.get('guard') is None or eval_pred(a['guard'], env)):
+                return vector_nonempty(a['body'], env)
+        raise PredUndec('no arm of nodes_recursive applies to a %s leaf' % leaf)
+    raise PredUndec('the match on the diagram was not found')
 
 def leaf_arm_predicate(t, fn, R, what):
     """find the match arm `c if <guard>` following the Choice arm; returns (guard expr, bound var, filter var name)"""
@@ -323,16 +368,14 @@ def _x2_dot(F, R, lib, FILTERS):
     # (c) dot: declared leaf <=> same predicate; edge into a leaf emitted <=> that leaf declared
     G = 'rsbdd::bdd_io::BDDGraph::'
     t = lib.ithir.get(G + 'nodes_recursive')
-    arm, var, arms = leaf_arm_predicate(t, G + 'nodes_recursive', R, 'node') if t else (None, None, None)
     declared = {}
-    if arm is None:
-        R.violation(G + 'nodes_recursive / X2 / anchor', 'UNDECIDABLE', 'cannot find the guarded leaf arm of nodes_recursive')
+    if t is None:
+        R.violation(G + 'nodes_recursive / X2 / anchor', 'UNDECIDABLE', 'nodes_recursive not found')
     else:
-        nonempty = any(x['k'] == 'VarRef' or x['k'] == 'Call' for x in walk(arm['body']))
         for f in FILTERS:
             for leaf in ('True', 'False'):
                 try:
-                    got = eval_pred(arm['guard'], {var: ('bdd', leaf), 'self.filter': ('tte', f)})
+                    got = leaf_declared(t, leaf, f)
                 except PredUndec as u:
                     R.violation(G + 'nodes_recursive / X2 / UNDECIDABLE', 'UNDECIDABLE', 'leaf declaration predicate: %s' % u); got = None; break
                 declared[(f, leaf)] = got
@@ -392,7 +435,21 @@ def rule_X3(F, R):
             on_free = recv['k'] == 'Field' and recv.get('field_name') == 'free_vars'
             ok = on_free
             why = 'search over %s' % (recv.get('field_name') or pp(recv)[:40])
-            if ok and 'binary_search_by' in (callee_name(srch[0]) or ''):
+            if ok and (callee_name(srch[0]) or '').endswith('binary_search_by_key'):
+                # binary_search_by_key(&key.id, |v| v.id): key and probe projection are both the id
+                ka = strip(srch[0]['args'][1])
+                cl = [x for x in walk(srch[0]['args'][2]) if x['k'] == 'Closure']
+                okc = False
+                if cl and ka['k'] == 'Field' and ka.get('field_name') == 'id':
+                    ct = lib.ithir.get(canon(cl[0]['def']))
+                    b_ = ct['body']
+                    while b_['k'] in ('Use', 'NeverToAny') or (b_['k'] == 'Block' and not b_['stmts'] and b_['expr'] is not None): b_ = b_['source'] if b_['k'] != 'Block' else b_['expr']
+                    b_ = strip(b_)
+                    pn = unwrap_pat(ct['params'][1]['pat']).get('var') if len(ct['params']) == 2 else None
+                    okc = b_['k'] == 'Field' and b_.get('field_name') == 'id' and root_var(b_['lhs']) == pn
+                ok = okc
+                if not okc: why = 'binary_search_by_key must search the key\'s id among the elements\' ids (free_vars is sorted ascending by id)'
+            elif ok and 'binary_search_by' in (callee_name(srch[0]) or ''):
                 # comparator must order the probe element against the key by id, element first
                 cl = [x for x in walk(srch[0]['args'][1]) if x['k'] == 'Closure']
                 okc = False
